@@ -362,6 +362,25 @@ class Explorer:
             return Verdict("unsat", None, dt, len(cons))
         return Verdict("unknown", None, dt, len(cons))
 
+    def cone_feasible(self, goal):
+        """vacuity guard: the constraints in the goal's cone of influence must be satisfiable on their own
+        (an unsatisfiable assumption set 'proves' everything).  Memoised per path by the cone's constraint set."""
+        g = [zb(goal)] if goal is not True and goal is not False else []
+        cons = self._slice(g)
+        key = frozenset(c.get_id() for c in cons)
+        memo = self.__dict__.setdefault("_cone_memo", {})
+        if memo.get("path") is not self.pc:
+            memo.clear()
+            memo["path"] = self.pc
+        if key in memo:
+            return memo[key]
+        if not cons:
+            memo[key] = True
+            return True
+        v = self.query([], seeds=g, exp_axioms="basic")
+        memo[key] = v.status != "unsat"
+        return memo[key]
+
     def prove(self, goal, abstract=None, **kw):
         """unsat = goal holds for every value on this path.
 
